@@ -5,6 +5,7 @@ import (
 	"fmt"
 	"net/http"
 	"net/url"
+	"strings"
 )
 
 type kv struct {
@@ -24,13 +25,35 @@ func (c *ContentDisposition) Add(key, value string) *ContentDisposition {
 	return c
 }
 
+// quoteParamValue returns value as the content of a MIME quoted-string:
+// backslash and double quote are backslash-escaped, exactly as mime/multipart
+// does for field names. Bytes that cannot appear in a header field value at
+// all (control characters other than TAB, and DEL) are percent-encoded, as
+// browsers and newer Go releases do for CR and LF, so that a name can neither
+// break the part header nor make the receiving parser reject it.
+func quoteParamValue(value string) string {
+	var b strings.Builder
+	for i := 0; i < len(value); i++ {
+		switch c := value[i]; {
+		case c == '\\' || c == '"':
+			b.WriteByte('\\')
+			b.WriteByte(c)
+		case (c < 0x20 && c != '\t') || c == 0x7f:
+			fmt.Fprintf(&b, "%%%02X", c)
+		default:
+			b.WriteByte(c)
+		}
+	}
+	return b.String()
+}
+
 func (c *ContentDisposition) string() string {
 	if c == nil {
 		return ""
 	}
 	s := ""
 	for _, kv := range c.kv {
-		s += fmt.Sprintf("; %s=%q", kv.Key, kv.Value)
+		s += fmt.Sprintf(`; %s="%s"`, kv.Key, quoteParamValue(kv.Value))
 	}
 	return s
 }
